@@ -926,3 +926,79 @@ register(Obligation(name="C16.orbital_wrappers.localise_current_coefficients", p
 register(Obligation(name="C16.get_FO.non_uniform_fillings", prop=PROP, engine="B", bounded=True, functions=["eminus.localizer:get_FO", "eminus.localizer:get_R"],
                     run=BoundedNative(nat_FO_fillings, 1, tol=1e-8, what="Fermi orbitals with fillings (2, 2, 2, 1): normalised combinations sum_j R[i, j] psi_j"),
                     budget={"quick": 300, "thorough": 600}, doc="BOUNDED: Fermi orbitals do not depend on the size of the (non-zero) fillings"))
+
+
+# ------------------------------------------------------------------------------------------------
+# bounded: single-orbital densities and the one-electron SIC clause with UNEQUAL k-point weights
+# ------------------------------------------------------------------------------------------------
+
+
+def nat_single_densities_weighted_k(rng):
+    """H atom (one electron, unrestricted), Monkhorst-Pack 3x1x1 mesh reduced by time reversal (weights 1/3, 2/3) and a hand-made set with weights
+    (0.2, 0.3, 0.5): get_n_single = sum_k wk f |psi_k|^2 (orbitals transformed independently), its sum over the orbitals is the density, and the
+    self-interaction energy of the single electron has the size of E_H[n] + E_xc[n, 0] (sign-agnostic: the sign is an open finding)."""
+    import eminus
+    from eminus import SCF, Atoms
+    from eminus.dft import get_n_single, get_n_total, orth
+    from eminus.energies import get_Ecoul, get_Esic, get_Exc
+
+    eminus.config.backend = "numpy"
+    eminus.config.verbose = "critical"
+    worst = 0.0
+    for mode in ("trs", "set_k"):
+        at = Atoms("H", [[0.1, 0.2, 0.3]], ecut=4, a=[[6.0, 0.3, 0.0], [0.0, 6.5, 0.2], [0.1, 0.0, 7.0]], unrestricted=True)
+        if mode == "trs":
+            at.kpts.kmesh = [3, 1, 1]
+            at.kpts.gamma_centered = False
+            at.kpts.trs()
+            at.build()
+        else:
+            at.set_k([[0.0, 0.0, 0.0], [0.2, 0.1, 0.05], [-0.1, 0.3, 0.2]], [0.2, 0.3, 0.5])
+        for xc in ("lda,vwn", "pbe"):
+            scf = SCF(at, xc=xc, verbose="critical")
+            a = scf.atoms
+            wk = np.asarray(a.kpts.wk)
+            if len(wk) < 2 or np.ptp(wk) < 1e-6:
+                raise RuntimeError(f"harness: the k-point weights are not unequal: {wk}")
+            Y = orth(a, [rnd(rng, 2, len(a.Gk2c[ik]), a.occ.Nstate) for ik in range(a.kpts.Nk)])
+            ns = np.asarray(get_n_single(a, Y))
+            f = np.asarray(a.occ.f)
+            want = np.zeros_like(ns)
+            for ik in range(a.kpts.Nk):
+                for s in range(2):
+                    psi = np.asarray(a.I(np.asarray(Y[ik][s]), ik))
+                    want[s] += wk[ik] * f[ik, s][None, :] * np.abs(psi) ** 2
+            worst = max(worst, float(np.abs(ns - want).max() / max(1e-30, np.abs(want).max())))
+            n = np.asarray(get_n_total(a, Y))
+            worst = max(worst, float(np.abs(ns.sum(axis=(0, 2)) - n).max()))
+            scf.Y = Y
+            esic = float(get_Esic(scf, Y))
+            nsp = np.zeros((2, a.Ns))
+            nsp[0] = n
+            from eminus.gga import get_grad_field
+
+            dn = np.asarray(get_grad_field(a, nsp)) if xc == "pbe" else None
+            ref = float(get_Ecoul(a, n)) + float(get_Exc(scf, n, n_spin=nsp, dn_spin=dn, Nspin=2))
+            worst = max(worst, abs(abs(esic) - abs(ref)) / abs(ref))
+    # the optional n_single argument: the caller's array is not modified and a second evaluation on it gives the same energy (fillings 2: spin-paired)
+    at = Atoms("LiH", [[0.0, 0.0, 0.0], [0.0, 0.0, 3.0]], ecut=4, a=8)
+    scf = SCF(at, xc="pbe", verbose="critical")
+    a = scf.atoms
+    Y = orth(a, [rnd(rng, 1, len(a.Gk2c[0]), a.occ.Nstate)])
+    scf.Y = Y
+    ns = get_n_single(a, Y)
+    keep = np.asarray(ns).copy()
+    e0 = float(get_Esic(scf, Y))
+    e1 = float(get_Esic(scf, Y, n_single=ns))
+    e2 = float(get_Esic(scf, Y, n_single=ns))
+    worst = max(worst, abs(e1 - e0) / abs(e0), abs(e2 - e0) / abs(e0), float(np.abs(np.asarray(ns) - keep).max()))
+    return worst
+
+
+from contracts.c04_c05_c01_c11 import BoundedNative  # noqa: E402
+
+register(Obligation(name="C16.get_n_single_get_Esic.unequal_kpoint_weights", prop=PROP, engine="B", bounded=True,
+                    functions=["eminus.dft:get_n_single", "eminus.energies:get_Esic"],
+                    run=BoundedNative(nat_single_densities_weighted_k, 1, tol=1e-9, what="single-orbital densities and the one-electron SIC energy with unequal k-point weights (trs-reduced mesh, hand-made set)"),
+                    budget={"quick": 300, "thorough": 600},
+                    doc="BOUNDED: get_n_single = sum_k wk f |psi_k|^2 and |Esic| = |E_H[n] + E_xc[n, 0]| for one electron with unequal k-point weights"))
